@@ -11,7 +11,7 @@ def _id_like(ty, id_rx):
 
 
 def check_traversal(ctx, rule, fn, family_rx, id_rx, stop=None, erased=None, label=None, dispatch=None, allow_default=False,
-                    ignored_ok=None):
+                    ignored_ok=None, rest_ok=None):
     """stop: {variant: reason} arms that deliberately visit nothing; erased: {variant: {path-suffix: reason}} children that are
     deliberately not visited."""
     facts = ctx.facts
@@ -107,6 +107,10 @@ def check_traversal(ctx, rule, fn, family_rx, id_rx, stop=None, erased=None, lab
             ctx.violation(rule, "%s:%s:ignored-child" % (label, vname),
                           "%s arm %s ignores a child of type %s with `_`" % (fn, vname, node.get("ty")), [loc[0], a["ln"]])
         for node in rests:
+            why = next(((rest_ok or {})[v] for v in variants if v in (rest_ok or {})), None)
+            if why:
+                ctx.ok(rule, "%s:%s:rest-pattern" % (label, vname), {"variant": vname, "rest_ok_because": why})
+                continue
             ctx.violation(rule, "%s:%s:rest-pattern" % (label, vname),
                           "%s arm %s uses `..` on %s: children can be skipped silently" % (fn, vname, node["path"].get("def")),
                           [loc[0], a["ln"]])
